@@ -401,7 +401,7 @@ def counts_nonneg(lines):
     """domain of C19: with --prefixcount a numeric count prefix is >= 0 (a negative count is not a count)"""
     k = z3.Int('k!cn')
     line = z3.Select(LSTR.arr(lines), k)
-    strip_crlf = z3.Function('s_rstrip_0d0a', T.Str, T.Str)
+    strip_crlf = z3.Function('s_rstrip_0a0d', T.Str, T.Str)      # rstrip('\r\n'): the character set {LF, CR}, key sorted by code point
     lstrip = z3.Function('s_lstrip', T.Str, T.Str)
     split_sp = z3.Function('s_split_20', T.Str, LSTR.sort())
     tok = z3.Select(LSTR.arr(split_sp(lstrip(strip_crlf(line)))), 0)
